@@ -314,17 +314,43 @@ def scen_two_generators(ch, params, out):
               "limit_of_another_generator_applied")
 
 
+def scen_cli_limit(ch, params, out):
+    """--max-strings-literals N through the real CLI (0 must disable Literal annotations; absent means 10)"""
+    import json
+    import typing
+    from vflib import clienv, pipeline
+    opt = ch.choose("option", [None, 0, 1, 2, 3, 4, 10, 11, 16], shard=True)
+    n = ch.choose("distinct_strings", [1, 2, 3, 9, 10, 15])
+    fw = ch.choose("framework", ["base", "pydantic", "dataclasses", "attrs"])
+    via_kwargs = ch.flag("via_code_generator_kwargs") if opt is not None else False
+    strs = [f"v{i:02d}" for i in range(n)]
+    fs = {"/vfs/in.json": json.dumps([{"a": s_} for s_ in strs])}
+    argv = ["-m", "Root", "/vfs/in.json", "-f", fw]
+    if opt is not None:
+        argv += ["--code-generator-kwargs", f"max_literals={opt}"] if via_kwargs else ["--max-strings-literals", str(opt)]
+    res = clienv.run_main(argv, fs)
+    out.info = {"argv": argv, "strings": n}
+    if not out.check(res.status == 0, "cli_fails", lambda: f"{res.stderr[-300:]} argv={argv}", "cli_fails"):
+        return
+    limit = 10 if opt is None else opt
+    expect = n < limit and fw != "attrs" and limit != 0
+    has = "Literal[" in res.stdout.split('\n"""\n', 1)[-1]
+    out.check(has == expect, "cli_literal_limit_wrong", lambda: f"argv={argv}: {n} distinct strings, limit {limit}: {'Literal' if has else 'str'} emitted", "cli_literal_limit_wrong")
+
+
 def parts(tier):
     if tier == "quick":
         return [SMT("limits", "vflib.props.c10:kernel_limits", {}, timeout=500),
                 SMT("escaping", "vflib.props.c10:kernel_escape", {}, timeout=200, mode="SMT-S"),
                 CH("e2e", "vflib.props.c10:scen_e2e", {"counts": [1, 3, 9, 10, 11, 15, 16, 17], "limits": [0, 1, 4, 10, 11, 16, 17]},
                    shards=16, timeout=170, path_timeout=30),
-                CH("two_generators", "vflib.props.c10:scen_two_generators", {}, shards=16, timeout=170, path_timeout=30)]
+                CH("two_generators", "vflib.props.c10:scen_two_generators", {}, shards=16, timeout=170, path_timeout=30),
+                CH("cli_limit_option", "vflib.props.c10:scen_cli_limit", {}, shards=9, timeout=170, path_timeout=30)]
     return [SMT("limits", "vflib.props.c10:kernel_limits", {}, timeout=400),
             SMT("escaping", "vflib.props.c10:kernel_escape", {}, timeout=200, mode="SMT-S"),
             CH("e2e", "vflib.props.c10:scen_e2e", {"counts": list(range(1, 18)), "limits": list(range(0, 18))}, shards=16, timeout=400, path_timeout=30),
-            CH("two_generators", "vflib.props.c10:scen_two_generators", {}, shards=16, timeout=400, path_timeout=30)]
+            CH("two_generators", "vflib.props.c10:scen_two_generators", {}, shards=16, timeout=400, path_timeout=30),
+            CH("cli_limit_option", "vflib.props.c10:scen_cli_limit", {}, shards=9, timeout=400, path_timeout=30)]
 
 
 META = {
